@@ -29,6 +29,12 @@ def jobs_for(prop, tier):
         jobs.append(dict(skel=s, backend='mmap', consistency='StrictlyAtOnce'))
     for s in skels[:2] if tier == 'quick' else skels[:6]:
         jobs.append(dict(skel=s, backend='fd', consistency='AtLeastOnce', persist_every=3))
+    if prop == 'C15':
+        # failed operations interleaved, and counts rebuilt after a restart (sizes <= 32 MiB keep the recovery scan tractable)
+        for s in ['a,r,c,n,c', 'r,c,a,c', 'a,L,c', 'L:u,a,c'] + (['a,A2,r,b,c', 'a,r,a,n,c'] if tier == 'thorough' else []):
+            jobs.append(dict(skel=s, backend='fd', consistency='StrictlyAtOnce'))
+        for s in ['a,n,a,X,c', 'a,a,n,X,c,n,c', 'A2,n,X,c'] + (['a,n,a,a,X,c,b,c', 'a,a:u,n,X,c,c:u', 'a,b,a,X,c'] if tier == 'thorough' else []):
+            jobs.append(dict(skel=s, backend='fd', consistency='StrictlyAtOnce', sizecap=32 * 2 ** 20, cfg=dict(eager_div=6)))
     return jobs
 
 
